@@ -110,6 +110,13 @@ func (w *c14world) next(m *c14mach) (val string, stop bool) {
 			return v, false
 		}
 		return "", true
+	case "taker":
+		// a guarded yield whose value steps another iterator: when the guard is false the step stops without
+		// evaluating the value, so the other iterator stays where it is (however often the stopped one is asked)
+		if m.a >= l.N {
+			return "", true
+		}
+		fallthrough
 	case "outer":
 		in := w.machs[l.inner]
 		iv, st := w.next(in)
@@ -124,6 +131,9 @@ func (w *c14world) next(m *c14mach) (val string, stop bool) {
 	}
 	return "", true
 }
+
+// reads: the literal's body steps another iterator held in a variable
+func (l *c14lit) reads() bool { return l.kind == "outer" || l.kind == "taker" }
 
 func (l *c14lit) finite() bool {
 	switch l.kind {
@@ -203,7 +213,7 @@ func (l *c14lit) newMach(rng *rand.Rand) (*c14mach, string) {
 			return m, fmt.Sprintf("%d, step: %d", m.a, m.step)
 		}
 		return m, fmt.Sprint(m.a)
-	case "outer":
+	case "outer", "taker":
 		m.a = rng.Intn(3)
 		return m, fmt.Sprint(m.a)
 	}
@@ -301,6 +311,10 @@ func runC14(w *fw.W) {
 			newIter(inner, "")
 			innerName := its[len(its)-1]
 			outer := &c14lit{name: "gout", kind: "outer", inner: innerName, src: fmt.Sprintf("<{|k| yield %s.next + k; recur(k + 1)}>", innerName)}
+			if rng.Intn(2) == 0 {
+				outer = &c14lit{name: "gout", kind: "taker", N: 2 + rng.Intn(4), inner: innerName}
+				outer.src = fmt.Sprintf("<{|k| yield %s.next + k if k < %d; recur(k + 1)}>", innerName, outer.N)
+			}
 			run(outer.name + " := " + outer.src)
 			lits = append(lits, outer)
 			newIter(outer, "")
@@ -365,12 +379,12 @@ func runC14(w *fw.W) {
 				} else {
 					expectVal("next-through-inherited-property", "box.bear({z: 1}).it.next", v, st)
 				}
-			case op == 15 && l.finite() && l.kind != "outer":
+			case op == 15 && l.finite() && !l.reads():
 				// a list chain over (a copy of) this iterator whose block steps another iterator: the block's own
 				// StopIterErr (the other one ran out first) is an error like any other
 				other := its[rng.Intn(len(its))]
 				m2 := world.machs[other]
-				if m2 == m || m2.lit.kind == "outer" || l.kind == "nilyield" || m2.lit.kind == "nilyield" {
+				if m2 == m || m2.lit.reads() || l.kind == "nilyield" || m2.lit.kind == "nilyield" {
 					break
 				}
 				var pairs []string
@@ -385,10 +399,10 @@ func runC14(w *fw.W) {
 					pairs = append(pairs, "["+v+", "+v2+"]")
 				}
 				expectVal("list-chain-stepping-another-iterator", fmt.Sprintf("%s@{|x| [x, %s.next]}", name, other), "["+strings.Join(pairs, ", ")+"]", stopped)
-			case op == 16 && l.finite() && l.kind != "outer":
+			case op == 16 && l.finite() && !l.reads():
 				other := its[rng.Intn(len(its))]
 				m2 := world.machs[other]
-				if m2 == m || m2.lit.kind == "outer" {
+				if m2 == m || m2.lit.reads() {
 					break
 				}
 				cnt := 0
@@ -433,7 +447,7 @@ func runC14(w *fw.W) {
 					chainAdv++
 				}
 				expectVal("reduce-chain", name+"$(0){|acc, x| acc + 1}", fmt.Sprint(len(enumerate(*m))), false)
-			case op == 8 && l.kind != "outer":
+			case op == 8 && !l.reads():
 				cp := *m
 				v, st := world.next(&cp)
 				expectVal("_iter.next", name+"._iter.next", v, st)
@@ -441,12 +455,12 @@ func runC14(w *fw.W) {
 				v, st := world.next(m)
 				advanced[m] = true
 				expectVal("passed-to-function", "adv("+name+")", v, st)
-			case op == 10 && len(its) < 6 && l.kind != "outer":
+			case op == 10 && len(its) < 6 && !l.reads():
 				// new from an (advanced) iterator: fresh machine from the literal's parameters
 				newIter(l, name)
 			case op == 11 && len(its) < 6:
 				l2 := lits[rng.Intn(len(lits))]
-				if l2.kind != "outer" {
+				if !l2.reads() {
 					newIter(l2, "")
 				}
 			case op == 12 && len(its) < 6:
